@@ -166,64 +166,259 @@ Ltac body_simpl planetie flipf i :=
   rewrite ?arr_set_same; cbv beta iota zeta;
   destruct_call flipf; cbv beta iota zeta.
 
+(* one pass of compute() equals the model's estimate_point at the point index, and leaves the other entries alone; then
+   fold_zrange_pointwise.  Goal (after intros):  let '(nrm [, cv [, rl]], ..) := src_compute.. in forall j, (in range -> .. = ..) /\ (.. -> ..) *)
+Ltac compute_core G get F planetie flipf fliptie size Hsz Hshape EF j :=
+  let Hother := fresh "Hother" in let Hsame := fresh "Hsame" in let P1 := fresh "P1" in let P2 := fresh "P2" in
+  assert (Hother : forall s i j, j <> i -> get (G s i) j = get s j);
+  [ let s := fresh "s" in let i := fresh "i" in let j' := fresh "j" in let Hne := fresh "Hne" in
+    intros s i j' Hne; destruct_tuples; unfold get, G; body_simpl planetie flipf i;
+    cbn [fst snd]; rewrite !arr_set_other by exact Hne; reflexivity | ];
+  assert (Hsame : forall s i, (0 <= i < Z.of_nat (Z.to_nat size))%Z -> get (G s i) i = F i (get s i));
+  [ let s := fresh "s" in let i := fresh "i" in let Hi := fresh "Hi" in let Hs1 := fresh "Hs1" in let Hs2 := fresh "Hs2" in
+    let lam := fresh "lam" in let vecs := fresh "vecs" in
+    intros s i Hi; pose proof (Hshape i ltac:(lia)) as [Hs1 Hs2]; destruct_tuples; unfold get, G, F;
+    body_simpl planetie flipf i; cbn [fst snd]; rewrite !arr_set_same;
+    repeat match goal with E : ?x = (_, _) |- context [?x] => rewrite E end;
+    match goal with E : ?x = ?tup |- _ => let h := head x in constr_eq h flipf; rewrite <- E end;
+    rewrite fliptie; unfold estimate_point;
+    match goal with |- context [?e ?C] => lazymatch type of C with list (list T) => destruct (e C) as [lam vecs] end end;
+    cbn [eig_val eig_vec fst snd e_normal e_curvature e_reliability] in *; unfold write_normal;
+    first [rewrite (firstn_nth3 (nzero N)) by assumption | rewrite (firstn_nth2 (nzero N)) by assumption];
+    cbn [l2 l3 l4 skipn app];
+    repeat (apply (f_equal2 (@pair _ _))); try reflexivity;
+    unfold curvature, vsum, eig_sum, vcoord; repeat (destruct lam as [|? lam]; try discriminate); reflexivity
+  | ];
+  match type of EF with fold_left _ _ ?init = _ =>
+    destruct (fold_zrange_pointwise G get F (Z.to_nat size) Hsame Hother init j) as [P1 P2] end;
+  rewrite Z2Nat.id in P1, P2 by exact Hsz; rewrite EF in P1, P2; unfold get, F in P1, P2; cbn [fst snd] in P1, P2;
+  split; [exact P1 | exact P2].
+
+Ltac compute_tie f planetie flipf fliptie lS dim sz eig kd_find kd points k size Hsz Hshape :=
+  let G := fresh "G" in let EF := fresh "EF" in let j := fresh "j" in let get := fresh "get" in let F := fresh "F" in
+  unfold f;
+  match goal with |- context [fold_left ?g (zrange size) ?init] =>
+    set (G := g); destruct (fold_left G (zrange size) init) as [? ?] eqn:EF end; destruct_tuples;
+  intros j;
+  let est i old := constr:(estimate_point N eig false dim sz (lS (points i))
+                             (map (fun i0 => lS (points i0)) (kd_find kd (points i) k)) old) in
+  match type of EF with fold_left _ _ _ = ?tup =>
+    let ty := type of tup in
+    lazymatch goal with
+    | |- (_ -> (lS (?nrm j), ?cv j, ?rl j) = _) /\ _ =>
+      pose (get := fun (st : ty) (i : Z) =>
+        (lS (ltac:(let q := proj_of nrm tup st in exact q) i), ltac:(let q := proj_of cv tup st in exact q) i,
+         ltac:(let q := proj_of rl tup st in exact q) i));
+      pose (F := fun (i : Z) (old : list T * T * T) =>
+        ltac:(let e := est i (fst (fst old)) in exact (e_normal e, e_curvature e, e_reliability e)))
+    | |- (_ -> (lS (?nrm j), ?cv j) = _) /\ _ =>
+      pose (get := fun (st : ty) (i : Z) =>
+        (lS (ltac:(let q := proj_of nrm tup st in exact q) i), ltac:(let q := proj_of cv tup st in exact q) i));
+      pose (F := fun (i : Z) (old : list T * T) =>
+        ltac:(let e := est i (fst old) in exact (e_normal e, e_curvature e)))
+    | |- (_ -> lS (?nrm j) = _) /\ _ =>
+      pose (get := fun (st : ty) (i : Z) => lS (ltac:(let q := proj_of nrm tup st in exact q) i));
+      pose (F := fun (i : Z) (old : list T) => ltac:(let e := est i old in exact (e_normal e)))
+    end
+  end;
+  compute_core G get F planetie flipf fliptie size Hsz Hshape EF j.
+
+
 Section Compute.
 Context {K : Type} (eig : list (list T) -> list T * list (list T)).
 
-Lemma tie_compute_kd_ncr_H3 (kd_find : K -> T * T * T * T -> Z -> list Z) points size kd normals curvatures reliab k
-      nbi0 es0 a0 a1 a2 v00 v01 v02 v10 v11 v12 v20 v21 v22 :
-  (0 <= k)%Z -> (0 <= size)%Z ->
-  (forall p, length (kd_find kd p k) = Z.to_nat k) ->
-  let nb j := map (fun i => l4 (points i)) (kd_find kd (points j) k) in
-  (forall j, (0 <= j < size)%Z -> eig_shape 3 (eig (covariance N 3 4 (nb j)))) ->
+Lemma tie_compute_kd_n_V2 (kd_find : K -> T * T -> Z -> list Z) points size kd normals k nbi0 es0 a0 a1 v00 v01 v10 v11 :
+  (0 <= k)%Z -> (0 <= size)%Z -> (forall p, length (kd_find kd p k) = Z.to_nat k) ->
+  (forall j, (0 <= j < size)%Z ->
+     eig_shape 2 (eig (covariance N 2 2 (map (fun i => l2 (points i)) (kd_find kd (points j) k))))) ->
+  let '(nrm, _, _, _, _, _, _, _, _) :=
+    src_compute_kd_n_V2 N kd_find eig points size kd normals k nbi0 es0 a0 a1 v00 v01 v10 v11 in
+  forall j,
+    ((0 <= j < size)%Z ->
+     let e := estimate_point N eig false 2 2 (l2 (points j)) (map (fun i => l2 (points i)) (kd_find kd (points j) k)) (l2 (normals j)) in
+     l2 (nrm j) = e_normal e) /\
+    (~ (0 <= j < size)%Z -> l2 (nrm j) = l2 (normals j)).
+Proof.
+  intros Hk Hsz Hkd Hshape.
+  compute_tie @src_compute_kd_n_V2 (tie_plane_V2 eig kd_find) (@src_flip_V2) tie_flip_V2 l2 2%nat 2%nat eig kd_find kd points k size Hsz Hshape.
+Qed.
+
+Lemma tie_compute_kd_nc_V2 (kd_find : K -> T * T -> Z -> list Z) points size kd normals curvatures k nbi0 es0 a0 a1 v00 v01 v10 v11 :
+  (0 <= k)%Z -> (0 <= size)%Z -> (forall p, length (kd_find kd p k) = Z.to_nat k) ->
+  (forall j, (0 <= j < size)%Z ->
+     eig_shape 2 (eig (covariance N 2 2 (map (fun i => l2 (points i)) (kd_find kd (points j) k))))) ->
+  let '(nrm, cv, _, _, _, _, _, _, _, _) :=
+    src_compute_kd_nc_V2 N kd_find eig points size kd normals curvatures k nbi0 es0 a0 a1 v00 v01 v10 v11 in
+  forall j,
+    ((0 <= j < size)%Z ->
+     let e := estimate_point N eig false 2 2 (l2 (points j)) (map (fun i => l2 (points i)) (kd_find kd (points j) k)) (l2 (normals j)) in
+     (l2 (nrm j), cv j) = (e_normal e, e_curvature e)) /\
+    (~ (0 <= j < size)%Z -> (l2 (nrm j), cv j) = (l2 (normals j), curvatures j)).
+Proof.
+  intros Hk Hsz Hkd Hshape.
+  compute_tie @src_compute_kd_nc_V2 (tie_plane_V2 eig kd_find) (@src_flip_V2) tie_flip_V2 l2 2%nat 2%nat eig kd_find kd points k size Hsz Hshape.
+Qed.
+
+Lemma tie_compute_kd_ncr_V2 (kd_find : K -> T * T -> Z -> list Z) points size kd normals curvatures reliab k nbi0 es0 a0 a1 v00 v01 v10 v11 :
+  (0 <= k)%Z -> (0 <= size)%Z -> (forall p, length (kd_find kd p k) = Z.to_nat k) ->
+  (forall j, (0 <= j < size)%Z ->
+     eig_shape 2 (eig (covariance N 2 2 (map (fun i => l2 (points i)) (kd_find kd (points j) k))))) ->
+  let '(nrm, cv, rl, _, _, _, _, _, _, _, _) :=
+    src_compute_kd_ncr_V2 N kd_find eig points size kd normals curvatures reliab k nbi0 es0 a0 a1 v00 v01 v10 v11 in
+  forall j,
+    ((0 <= j < size)%Z ->
+     let e := estimate_point N eig false 2 2 (l2 (points j)) (map (fun i => l2 (points i)) (kd_find kd (points j) k)) (l2 (normals j)) in
+     (l2 (nrm j), cv j, rl j) = (e_normal e, e_curvature e, e_reliability e)) /\
+    (~ (0 <= j < size)%Z -> (l2 (nrm j), cv j, rl j) = (l2 (normals j), curvatures j, reliab j)).
+Proof.
+  intros Hk Hsz Hkd Hshape.
+  compute_tie @src_compute_kd_ncr_V2 (tie_plane_V2 eig kd_find) (@src_flip_V2) tie_flip_V2 l2 2%nat 2%nat eig kd_find kd points k size Hsz Hshape.
+Qed.
+
+Lemma tie_compute_kd_n_V3 (kd_find : K -> T * T * T -> Z -> list Z) points size kd normals k nbi0 es0 a0 a1 a2 v00 v01 v02 v10 v11 v12 v20 v21 v22 :
+  (0 <= k)%Z -> (0 <= size)%Z -> (forall p, length (kd_find kd p k) = Z.to_nat k) ->
+  (forall j, (0 <= j < size)%Z ->
+     eig_shape 3 (eig (covariance N 3 3 (map (fun i => l3 (points i)) (kd_find kd (points j) k))))) ->
+  let '(nrm, _, _, _, _, _, _, _, _, _, _, _, _, _, _) :=
+    src_compute_kd_n_V3 N kd_find eig points size kd normals k nbi0 es0 a0 a1 a2 v00 v01 v02 v10 v11 v12 v20 v21 v22 in
+  forall j,
+    ((0 <= j < size)%Z ->
+     let e := estimate_point N eig false 3 3 (l3 (points j)) (map (fun i => l3 (points i)) (kd_find kd (points j) k)) (l3 (normals j)) in
+     l3 (nrm j) = e_normal e) /\
+    (~ (0 <= j < size)%Z -> l3 (nrm j) = l3 (normals j)).
+Proof.
+  intros Hk Hsz Hkd Hshape.
+  compute_tie @src_compute_kd_n_V3 (tie_plane_V3 eig kd_find) (@src_flip_V3) tie_flip_V3 l3 3%nat 3%nat eig kd_find kd points k size Hsz Hshape.
+Qed.
+
+Lemma tie_compute_kd_nc_V3 (kd_find : K -> T * T * T -> Z -> list Z) points size kd normals curvatures k nbi0 es0 a0 a1 a2 v00 v01 v02 v10 v11 v12 v20 v21 v22 :
+  (0 <= k)%Z -> (0 <= size)%Z -> (forall p, length (kd_find kd p k) = Z.to_nat k) ->
+  (forall j, (0 <= j < size)%Z ->
+     eig_shape 3 (eig (covariance N 3 3 (map (fun i => l3 (points i)) (kd_find kd (points j) k))))) ->
+  let '(nrm, cv, _, _, _, _, _, _, _, _, _, _, _, _, _, _) :=
+    src_compute_kd_nc_V3 N kd_find eig points size kd normals curvatures k nbi0 es0 a0 a1 a2 v00 v01 v02 v10 v11 v12 v20 v21 v22 in
+  forall j,
+    ((0 <= j < size)%Z ->
+     let e := estimate_point N eig false 3 3 (l3 (points j)) (map (fun i => l3 (points i)) (kd_find kd (points j) k)) (l3 (normals j)) in
+     (l3 (nrm j), cv j) = (e_normal e, e_curvature e)) /\
+    (~ (0 <= j < size)%Z -> (l3 (nrm j), cv j) = (l3 (normals j), curvatures j)).
+Proof.
+  intros Hk Hsz Hkd Hshape.
+  compute_tie @src_compute_kd_nc_V3 (tie_plane_V3 eig kd_find) (@src_flip_V3) tie_flip_V3 l3 3%nat 3%nat eig kd_find kd points k size Hsz Hshape.
+Qed.
+
+Lemma tie_compute_kd_ncr_V3 (kd_find : K -> T * T * T -> Z -> list Z) points size kd normals curvatures reliab k nbi0 es0 a0 a1 a2 v00 v01 v02 v10 v11 v12 v20 v21 v22 :
+  (0 <= k)%Z -> (0 <= size)%Z -> (forall p, length (kd_find kd p k) = Z.to_nat k) ->
+  (forall j, (0 <= j < size)%Z ->
+     eig_shape 3 (eig (covariance N 3 3 (map (fun i => l3 (points i)) (kd_find kd (points j) k))))) ->
+  let '(nrm, cv, rl, _, _, _, _, _, _, _, _, _, _, _, _, _, _) :=
+    src_compute_kd_ncr_V3 N kd_find eig points size kd normals curvatures reliab k nbi0 es0 a0 a1 a2 v00 v01 v02 v10 v11 v12 v20 v21 v22 in
+  forall j,
+    ((0 <= j < size)%Z ->
+     let e := estimate_point N eig false 3 3 (l3 (points j)) (map (fun i => l3 (points i)) (kd_find kd (points j) k)) (l3 (normals j)) in
+     (l3 (nrm j), cv j, rl j) = (e_normal e, e_curvature e, e_reliability e)) /\
+    (~ (0 <= j < size)%Z -> (l3 (nrm j), cv j, rl j) = (l3 (normals j), curvatures j, reliab j)).
+Proof.
+  intros Hk Hsz Hkd Hshape.
+  compute_tie @src_compute_kd_ncr_V3 (tie_plane_V3 eig kd_find) (@src_flip_V3) tie_flip_V3 l3 3%nat 3%nat eig kd_find kd points k size Hsz Hshape.
+Qed.
+
+Lemma tie_compute_kd_n_H2 (kd_find : K -> T * T * T -> Z -> list Z) points size kd normals k nbi0 es0 a0 a1 v00 v01 v10 v11 :
+  (0 <= k)%Z -> (0 <= size)%Z -> (forall p, length (kd_find kd p k) = Z.to_nat k) ->
+  (forall j, (0 <= j < size)%Z ->
+     eig_shape 2 (eig (covariance N 2 3 (map (fun i => l3 (points i)) (kd_find kd (points j) k))))) ->
+  let '(nrm, _, _, _, _, _, _, _, _) :=
+    src_compute_kd_n_H2 N kd_find eig points size kd normals k nbi0 es0 a0 a1 v00 v01 v10 v11 in
+  forall j,
+    ((0 <= j < size)%Z ->
+     let e := estimate_point N eig false 2 3 (l3 (points j)) (map (fun i => l3 (points i)) (kd_find kd (points j) k)) (l3 (normals j)) in
+     l3 (nrm j) = e_normal e) /\
+    (~ (0 <= j < size)%Z -> l3 (nrm j) = l3 (normals j)).
+Proof.
+  intros Hk Hsz Hkd Hshape.
+  compute_tie @src_compute_kd_n_H2 (tie_plane_H2 eig kd_find) (@src_flip_H2) tie_flip_H2 l3 2%nat 3%nat eig kd_find kd points k size Hsz Hshape.
+Qed.
+
+Lemma tie_compute_kd_nc_H2 (kd_find : K -> T * T * T -> Z -> list Z) points size kd normals curvatures k nbi0 es0 a0 a1 v00 v01 v10 v11 :
+  (0 <= k)%Z -> (0 <= size)%Z -> (forall p, length (kd_find kd p k) = Z.to_nat k) ->
+  (forall j, (0 <= j < size)%Z ->
+     eig_shape 2 (eig (covariance N 2 3 (map (fun i => l3 (points i)) (kd_find kd (points j) k))))) ->
+  let '(nrm, cv, _, _, _, _, _, _, _, _) :=
+    src_compute_kd_nc_H2 N kd_find eig points size kd normals curvatures k nbi0 es0 a0 a1 v00 v01 v10 v11 in
+  forall j,
+    ((0 <= j < size)%Z ->
+     let e := estimate_point N eig false 2 3 (l3 (points j)) (map (fun i => l3 (points i)) (kd_find kd (points j) k)) (l3 (normals j)) in
+     (l3 (nrm j), cv j) = (e_normal e, e_curvature e)) /\
+    (~ (0 <= j < size)%Z -> (l3 (nrm j), cv j) = (l3 (normals j), curvatures j)).
+Proof.
+  intros Hk Hsz Hkd Hshape.
+  compute_tie @src_compute_kd_nc_H2 (tie_plane_H2 eig kd_find) (@src_flip_H2) tie_flip_H2 l3 2%nat 3%nat eig kd_find kd points k size Hsz Hshape.
+Qed.
+
+Lemma tie_compute_kd_ncr_H2 (kd_find : K -> T * T * T -> Z -> list Z) points size kd normals curvatures reliab k nbi0 es0 a0 a1 v00 v01 v10 v11 :
+  (0 <= k)%Z -> (0 <= size)%Z -> (forall p, length (kd_find kd p k) = Z.to_nat k) ->
+  (forall j, (0 <= j < size)%Z ->
+     eig_shape 2 (eig (covariance N 2 3 (map (fun i => l3 (points i)) (kd_find kd (points j) k))))) ->
+  let '(nrm, cv, rl, _, _, _, _, _, _, _, _) :=
+    src_compute_kd_ncr_H2 N kd_find eig points size kd normals curvatures reliab k nbi0 es0 a0 a1 v00 v01 v10 v11 in
+  forall j,
+    ((0 <= j < size)%Z ->
+     let e := estimate_point N eig false 2 3 (l3 (points j)) (map (fun i => l3 (points i)) (kd_find kd (points j) k)) (l3 (normals j)) in
+     (l3 (nrm j), cv j, rl j) = (e_normal e, e_curvature e, e_reliability e)) /\
+    (~ (0 <= j < size)%Z -> (l3 (nrm j), cv j, rl j) = (l3 (normals j), curvatures j, reliab j)).
+Proof.
+  intros Hk Hsz Hkd Hshape.
+  compute_tie @src_compute_kd_ncr_H2 (tie_plane_H2 eig kd_find) (@src_flip_H2) tie_flip_H2 l3 2%nat 3%nat eig kd_find kd points k size Hsz Hshape.
+Qed.
+
+Lemma tie_compute_kd_n_H3 (kd_find : K -> T * T * T * T -> Z -> list Z) points size kd normals k nbi0 es0 a0 a1 a2 v00 v01 v02 v10 v11 v12 v20 v21 v22 :
+  (0 <= k)%Z -> (0 <= size)%Z -> (forall p, length (kd_find kd p k) = Z.to_nat k) ->
+  (forall j, (0 <= j < size)%Z ->
+     eig_shape 3 (eig (covariance N 3 4 (map (fun i => l4 (points i)) (kd_find kd (points j) k))))) ->
+  let '(nrm, _, _, _, _, _, _, _, _, _, _, _, _, _, _) :=
+    src_compute_kd_n_H3 N kd_find eig points size kd normals k nbi0 es0 a0 a1 a2 v00 v01 v02 v10 v11 v12 v20 v21 v22 in
+  forall j,
+    ((0 <= j < size)%Z ->
+     let e := estimate_point N eig false 3 4 (l4 (points j)) (map (fun i => l4 (points i)) (kd_find kd (points j) k)) (l4 (normals j)) in
+     l4 (nrm j) = e_normal e) /\
+    (~ (0 <= j < size)%Z -> l4 (nrm j) = l4 (normals j)).
+Proof.
+  intros Hk Hsz Hkd Hshape.
+  compute_tie @src_compute_kd_n_H3 (tie_plane_H3 eig kd_find) (@src_flip_H3) tie_flip_H3 l4 3%nat 4%nat eig kd_find kd points k size Hsz Hshape.
+Qed.
+
+Lemma tie_compute_kd_nc_H3 (kd_find : K -> T * T * T * T -> Z -> list Z) points size kd normals curvatures k nbi0 es0 a0 a1 a2 v00 v01 v02 v10 v11 v12 v20 v21 v22 :
+  (0 <= k)%Z -> (0 <= size)%Z -> (forall p, length (kd_find kd p k) = Z.to_nat k) ->
+  (forall j, (0 <= j < size)%Z ->
+     eig_shape 3 (eig (covariance N 3 4 (map (fun i => l4 (points i)) (kd_find kd (points j) k))))) ->
+  let '(nrm, cv, _, _, _, _, _, _, _, _, _, _, _, _, _, _) :=
+    src_compute_kd_nc_H3 N kd_find eig points size kd normals curvatures k nbi0 es0 a0 a1 a2 v00 v01 v02 v10 v11 v12 v20 v21 v22 in
+  forall j,
+    ((0 <= j < size)%Z ->
+     let e := estimate_point N eig false 3 4 (l4 (points j)) (map (fun i => l4 (points i)) (kd_find kd (points j) k)) (l4 (normals j)) in
+     (l4 (nrm j), cv j) = (e_normal e, e_curvature e)) /\
+    (~ (0 <= j < size)%Z -> (l4 (nrm j), cv j) = (l4 (normals j), curvatures j)).
+Proof.
+  intros Hk Hsz Hkd Hshape.
+  compute_tie @src_compute_kd_nc_H3 (tie_plane_H3 eig kd_find) (@src_flip_H3) tie_flip_H3 l4 3%nat 4%nat eig kd_find kd points k size Hsz Hshape.
+Qed.
+
+Lemma tie_compute_kd_ncr_H3 (kd_find : K -> T * T * T * T -> Z -> list Z) points size kd normals curvatures reliab k nbi0 es0 a0 a1 a2 v00 v01 v02 v10 v11 v12 v20 v21 v22 :
+  (0 <= k)%Z -> (0 <= size)%Z -> (forall p, length (kd_find kd p k) = Z.to_nat k) ->
+  (forall j, (0 <= j < size)%Z ->
+     eig_shape 3 (eig (covariance N 3 4 (map (fun i => l4 (points i)) (kd_find kd (points j) k))))) ->
   let '(nrm, cv, rl, _, _, _, _, _, _, _, _, _, _, _, _, _, _) :=
     src_compute_kd_ncr_H3 N kd_find eig points size kd normals curvatures reliab k nbi0 es0 a0 a1 a2 v00 v01 v02 v10 v11 v12 v20 v21 v22 in
   forall j,
     ((0 <= j < size)%Z ->
-     let e := estimate_point N eig false 3 4 (l4 (points j)) (nb j) (l4 (normals j)) in
-     l4 (nrm j) = e_normal e /\ cv j = e_curvature e /\ rl j = e_reliability e) /\
-    (~ (0 <= j < size)%Z -> nrm j = normals j /\ cv j = curvatures j /\ rl j = reliab j).
+     let e := estimate_point N eig false 3 4 (l4 (points j)) (map (fun i => l4 (points i)) (kd_find kd (points j) k)) (l4 (normals j)) in
+     (l4 (nrm j), cv j, rl j) = (e_normal e, e_curvature e, e_reliability e)) /\
+    (~ (0 <= j < size)%Z -> (l4 (nrm j), cv j, rl j) = (l4 (normals j), curvatures j, reliab j)).
 Proof.
-  intros Hk Hsz Hkd nb Hshape. subst nb. unfold src_compute_kd_ncr_H3.
-  match goal with |- context [fold_left ?g (zrange size) ?init] =>
-    set (G := g); destruct (fold_left G (zrange size) init) as [? ?] eqn:EF end; destruct_tuples.
-  intros j.
-  match goal with |- (_ -> l4 (?nrm j) = _ /\ ?cv j = _ /\ ?rl j = _) /\ _ =>
-    match type of EF with fold_left _ _ ?init = ?tup =>
-      let ty := type of tup in
-      pose (get := fun (st : ty) (i : Z) =>
-        (l4 (ltac:(let q := proj_of nrm tup st in exact q) i), ltac:(let q := proj_of cv tup st in exact q) i,
-         ltac:(let q := proj_of rl tup st in exact q) i));
-      pose (F := fun (i : Z) (old : list T * T * T) =>
-        let e := estimate_point N eig false 3 4 (l4 (points i))
-                   (map (fun i0 => l4 (points i0)) (kd_find kd (points i) k)) (fst (fst old)) in
-        (e_normal e, e_curvature e, e_reliability e));
-      assert (Hother : forall s i j, j <> i -> get (G s i) j = get s j);
-      [ intros s i j' Hne; destruct_tuples; unfold get, G; body_simpl (tie_plane_H3 eig kd_find) (@src_flip_H3) i;
-        cbn [fst snd]; rewrite !arr_set_other by exact Hne; reflexivity | ];
-      assert (Hsame : forall s i, (0 <= i < Z.of_nat (Z.to_nat size))%Z -> get (G s i) i = F i (get s i));
-      [ intros s i Hi; pose proof (Hshape i ltac:(lia)) as [Hs1 Hs2]; destruct_tuples; unfold get, G, F;
-        body_simpl (tie_plane_H3 eig kd_find) (@src_flip_H3) i; cbn [fst snd]; rewrite !arr_set_same;
-        repeat match goal with E : ?x = (_, _) |- context [?x] => rewrite E end;
-        match goal with E : ?x = ?tup |- _ => let h := head x in constr_eq h (@src_flip_H3); rewrite <- E end;
-        rewrite tie_flip_H3; unfold estimate_point;
-        match goal with |- context [eig ?C] => destruct (eig C) as [lam vecs] end;
-        cbn [eig_val eig_vec fst snd e_normal e_curvature e_reliability] in *; unfold write_normal;
-        first [rewrite (firstn_nth3 (nzero N)) by assumption | rewrite (firstn_nth2 (nzero N)) by assumption];
-        cbn [l2 l3 l4 skipn app];
-        match goal with |- (?a, ?b, ?c) = (?a', ?b', ?c') =>
-          assert (H1 : a = a') by reflexivity; assert (H3 : c = c') by reflexivity;
-          assert (H2 : b = b') by (unfold curvature, vsum, eig_sum, vcoord;
-                                   repeat (destruct lam as [|? lam]; try discriminate); reflexivity);
-          rewrite H1, H2, H3; reflexivity end
-      | ];
-      destruct (fold_zrange_pointwise G get F (Z.to_nat size) Hsame Hother init j) as [P1 P2]
-    end
-  end.
-  rewrite Z2Nat.id in P1, P2 by exact Hsz. rewrite EF in P1, P2. unfold get, F in P1, P2. cbn [fst snd] in P1, P2.
-  split; intros Hj.
-  - specialize (P1 Hj). injection P1 as Q1 Q2 Q3. repeat split; assumption.
-  - specialize (P2 Hj). injection P2 as Q1 Q2 Q3. repeat split; try assumption. apply l4_inj; exact Q1.
+  intros Hk Hsz Hkd Hshape.
+  compute_tie @src_compute_kd_ncr_H3 (tie_plane_H3 eig kd_find) (@src_flip_H3) tie_flip_H3 l4 3%nat 4%nat eig kd_find kd points k size Hsz Hshape.
 Qed.
+
 End Compute.
 
 End Tie.
